@@ -65,7 +65,8 @@ func apiWorker(req N) (resp N) {
 	_ = prog.String()
 	stage = "compile"
 	cfg := risor.NewConfig()
-	if _, err := compiler.Compile(prog, cfg.CompilerOpts()...); err != nil {
+	code, err := compiler.Compile(prog, cfg.CompilerOpts()...)
+	if err != nil {
 		format(err)
 		return N{"k": "error", "stage": "compile"}
 	}
@@ -81,6 +82,29 @@ func apiWorker(req N) (resp N) {
 	stage = "inspect"
 	if res != nil {
 		_ = res.Inspect()
+	}
+	// risor.Call with every name the program declares at top level (functions, other values, names that were
+	// never assigned) and with a name it does not declare: an error is fine, a panic is not
+	stage = "call"
+	known := map[string]bool{}
+	for _, n := range cfg.GlobalNames() {
+		known[n] = true
+	}
+	names := []string{"no_such_function"}
+	for _, n := range code.GlobalNames() {
+		if !known[n] && len(names) < 6 {
+			names = append(names, n)
+		}
+	}
+	for _, n := range names {
+		cctx, ccancel := context.WithTimeout(ctx, 200*time.Millisecond)
+		v, cerr := risor.Call(cctx, code, n, nil, risor.WithOS(vos), risor.WithConcurrency())
+		ccancel()
+		if cerr != nil {
+			format(cerr)
+		} else if v != nil {
+			_ = v.Inspect()
+		}
 	}
 	return N{"k": "value", "stage": "eval"}
 }
